@@ -72,6 +72,7 @@ func (self *Core) runInstruction(instruction compiler.Instruction) *value.VmInte
 		}
 
 		// TODO: how to handle the debugger
+		vh("SpawnBy", int64(self.Corenum), i.Value)
 		self.parent.spawnCoreInternal(i.Value, args, nil, nil, true, nil)
 		// TODO: implement a wrapper around the threading model and add it to a std-lib
 		// TODO: get thread handle and push it onto the stack
@@ -206,6 +207,7 @@ func (self *Core) runInstruction(instruction compiler.Instruction) *value.VmInte
 		i := instruction.(compiler.OneStringInstruction)
 		self.parent.globals.Mutex.RLock()
 		v := self.parent.globals.Data[i.Value]
+		vh("GlobR", int64(self.Corenum), i.Value)
 		self.parent.globals.Mutex.RUnlock()
 
 		if debugAssertions {
@@ -240,6 +242,7 @@ func (self *Core) runInstruction(instruction compiler.Instruction) *value.VmInte
 
 		self.parent.globals.Mutex.Lock()
 		self.parent.globals.Data[i.Value] = *v
+		vh("GlobW", int64(self.Corenum), i.Value)
 		self.parent.globals.Mutex.Unlock()
 	case compiler.Opcode_Assign: // TODO: Assigns pointers on the stack???
 		src := self.pop()
